@@ -749,6 +749,7 @@ class LibMixin:
 
     # ---------------------------------------------------------------------- rng
     def bi_default_rng(self, I, a, k):
+        self.note_effect('new_rng', 'numpy.random.default_rng()')
         r = Rng(self.fresh_name('rng'))
         r.seed = a[0] if a else k.get('seed')
         return r
